@@ -22,6 +22,9 @@ for d in sorted(glob.glob(os.path.join(V, "seeded", "*"))):
     summ = (m.get("summary") or "").replace("|", "/").replace("\n", " ")
     if len(summ) > 230:
         summ = summ[:227] + "..."
+    others = [k.split("@")[1] for k in r if "@" in k and r[k]["violation_lines"] > 0]
+    if others:
+        m["note"] = (m.get("note", "") + " Caught by the check of " + ", ".join(sorted(set(others))) + ".").strip()
     rows.append(f"| {os.path.basename(d)} | {m['property']} | {', '.join(files)} | {summ} | {verdict('quick')} | {verdict('thorough') if 'thorough' in r else '-'} | {m.get('note', '')} |")
 table = ("| id | property | file(s) | change | quick tier | thorough tier | note |\n|---|---|---|---|---|---|---|\n" + "\n".join(rows))
 p = os.path.join(V, "DESIGN.md")
